@@ -134,10 +134,11 @@ def run(repo, rep):
     wl = [l for l in a.loops() if isinstance(l, ast.While)]
     if not wl:
         raise AnalysisError('%s: no receive loop in qr_find_scu' % f.loc())
-    o = loop_body_outcomes(a.client, wl[0])
+    from ..sym import iteration_paths
+    ipaths, o = iteration_paths(a.client, wl[0])
     probs = []
     n = 0
-    for s, kind in [(x, 'next') for x in list(o.fall) + list(o.cont)] + [(x, 'stop') for x in o.brk] + [(x, 'stop') for x, _ in o.ret]:
+    for s, kind in ipaths:
         n += 1
         rc = [e for e in s.trail if e.kind == 'receive']
         ys = [e for e in s.trail if e.kind == 'yield']
